@@ -11,6 +11,7 @@ package main
 
 import (
 	"bytes"
+	"crypto/ecdsa"
 	"encoding/json"
 	"errors"
 	"fmt"
@@ -223,6 +224,11 @@ var globShots = []string{"https://sub.example.com/cb", "https://a.b.example.com/
 
 var allRT = []oidc.ResponseType{oidc.ResponseTypeCode, oidc.ResponseTypeIDToken, oidc.ResponseTypeIDTokenOnly}
 
+func withKey(c *refstore.Client) *refstore.Client {
+	c.Keys = map[string]*jose.JSONWebKey{"k1": {Key: &clientKey(c.ID).PublicKey, KeyID: "k1", Algorithm: "ES256", Use: "sig"}}
+	return c
+}
+
 func genClient(r drv.Rand, id string) *refstore.Client {
 	c := &refstore.Client{ID: id, Secret: "s", Auth: oidc.AuthMethodBasic, ATType: op.AccessTokenTypeBearer,
 		Grants: []oidc.GrantType{oidc.GrantTypeCode, oidc.GrantTypeImplicit}}
@@ -250,7 +256,7 @@ func genClient(r drv.Rand, id string) *refstore.Client {
 	if r.Chance(1, 3) {
 		c.LoginPrefix = "https://login.example.com/l?id="
 	}
-	return c
+	return withKey(c)
 }
 
 func swapHost(u, from, to string) (string, bool) {
@@ -505,9 +511,106 @@ func genErrKind(r drv.Rand) errKind {
 	return k
 }
 
+// robj: the `request` parameter. kind 0 absent, 1 not a JWT, 2 a JWT really signed by the driver.
+type robj struct {
+	kind        int
+	iss, client string // iss and client_id claims
+	audOK       bool   // aud = issuer of the request (else another issuer)
+	signer      string // "client:<id>" = that client's registered key (kid k1), "attacker", "wrongkid"
+	rt, uri     string
+	mode        string
+	prompt      int // -1 absent, 0 "login", 1 "none login", 2 "none"
+	scope       string
+}
+
+func clientKey(id string) *ecdsa.PrivateKey { return opfix.ECKey("client-" + id) }
+
+// sigOK: does the signature verify under the key the storage returns for (kid, iss)?
+func (o robj) sigOK(clients []*refstore.Client) bool {
+	if o.signer != "client:"+o.iss {
+		return false
+	}
+	for _, c := range clients {
+		if c.ID == o.iss {
+			return true
+		}
+	}
+	return false
+}
+
+func (o robj) term(clients []*refstore.Client) string {
+	switch o.kind {
+	case 0:
+		return "RP_None"
+	case 1:
+		return "RP_Garbage"
+	}
+	pr := emit.None
+	if o.prompt >= 0 {
+		pr = emit.Some([]string{"P_Ok", "P_Bad", "P_None"}[o.prompt])
+	}
+	return emit.Ctor("RP_Signed", emit.Ctor("Build_robj", emit.Str(o.iss), emit.Str(o.client), emit.Bool(o.audOK), emit.Bool(o.sigOK(clients)),
+		emit.Str(o.rt), emit.Str(o.uri), emit.Str(o.mode), pr))
+}
+
+func (o robj) token(issuer string) string {
+	if o.kind == 1 {
+		return "not-a-jwt"
+	}
+	claims := map[string]any{"state": "st-ro"}
+	if o.iss != "" {
+		claims["iss"] = o.iss
+	}
+	if o.client != "" {
+		claims["client_id"] = o.client
+	}
+	if o.audOK {
+		claims["aud"] = []string{issuer}
+	} else {
+		claims["aud"] = []string{"https://elsewhere.example"}
+	}
+	if o.rt != "" {
+		claims["response_type"] = o.rt
+	}
+	if o.uri != "" {
+		claims["redirect_uri"] = o.uri
+	}
+	if o.mode != "" {
+		claims["response_mode"] = o.mode
+	}
+	if o.prompt >= 0 {
+		claims["prompt"] = []string{"login", "none login", "none"}[o.prompt]
+	}
+	if o.scope != "" {
+		claims["scope"] = o.scope
+	}
+	var key *ecdsa.PrivateKey
+	kid := "k1"
+	switch {
+	case strings.HasPrefix(o.signer, "client:"):
+		key = clientKey(o.signer[len("client:"):])
+	case o.signer == "wrongkid":
+		key, kid = clientKey(o.iss), "k9"
+	default:
+		key = opfix.ECKey("attacker")
+	}
+	signer, err := jose.NewSigner(jose.SigningKey{Algorithm: jose.ES256, Key: &jose.JSONWebKey{Key: key, KeyID: kid}}, (&jose.SignerOptions{}).WithType("JWT"))
+	if err != nil {
+		panic(err)
+	}
+	b, _ := json.Marshal(claims)
+	jws, err := signer.Sign(b)
+	if err != nil {
+		panic(err)
+	}
+	t, _ := jws.CompactSerialize()
+	return t
+}
+
 type areq struct {
 	client, uri, rt, mode string
-	malformed, reqobj     bool
+	malformed             bool
+	ro                    robj
 	prompt                int // 0 ok, 1 bad, 2 none
 	noscope, hintBad      bool
 	host                  string // Request.Host ("" = op.example.com)
@@ -518,9 +621,12 @@ type areq struct {
 
 func (q areq) term() string {
 	return emit.Ctor("Build_areq", emit.Str(q.client), emit.Str(q.uri), emit.Str(q.rt), emit.Str(q.mode),
-		emit.Bool(q.malformed), emit.Bool(q.reqobj), []string{"P_Ok", "P_Bad", "P_None"}[q.prompt],
+		emit.Bool(q.malformed), q.ro.term(termClients), []string{"P_Ok", "P_Bad", "P_None"}[q.prompt],
 		emit.Bool(q.noscope), emit.Bool(q.hintBad), q.faultTerm())
 }
+
+// termClients: the registrations of the session being emitted (sigOK needs them)
+var termClients []*refstore.Client
 
 func (q areq) faultTerm() string {
 	switch q.fault {
@@ -549,8 +655,12 @@ func (q areq) values() url.Values {
 	if q.malformed {
 		v.Set("max_age", "x")
 	}
-	if q.reqobj {
-		v.Set("request", "not-a-jwt")
+	if q.ro.kind != 0 {
+		iss := opfix.Issuer
+		if q.host != "" {
+			iss = "https://" + q.host
+		}
+		v.Set("request", q.ro.token(iss))
 	}
 	switch q.prompt {
 	case 1:
@@ -702,7 +812,7 @@ func newSession(reqobj bool, clients []*refstore.Client) *session {
 	if nf.kind != 0 || nf.wrap {
 		fail.NotFound = nf.mk()
 	}
-	f, err := opfix.NewWithStorage(store, opfix.Options{NoReqObj: !reqobj}, issuer, func(st op.Storage) op.Storage {
+	f, err := opfix.NewWithIssuerStorage(store, opfix.Options{NoReqObj: !reqobj}, issuer, func(st op.Storage) op.Storage {
 		fail.Storage = st
 		return fail
 	})
@@ -710,6 +820,7 @@ func newSession(reqobj bool, clients []*refstore.Client) *session {
 		fmt.Fprintln(os.Stderr, "fixture:", err)
 		os.Exit(2)
 	}
+	termClients = clients
 	return &session{reqobj: reqobj, clients: clients, store: store, f: f, fail: fail, notfound: nf}
 }
 
@@ -720,6 +831,9 @@ func (s *session) step(h hop) {
 	switch h.kind {
 	case 0:
 		s.uris = append(s.uris, h.q.uri)
+		if h.q.ro.kind == 2 {
+			s.uris = append(s.uris, h.q.ro.uri)
+		}
 		before := map[string]bool{}
 		for id := range store.AuthReqs {
 			before[id] = true
@@ -845,7 +959,7 @@ func genHistory(r drv.Rand, w *emit.Writer) {
 			case 0:
 				q.malformed, mut = true, "malformed"
 			case 1:
-				q.reqobj, mut = true, "reqobj"
+				q.ro, mut = robj{kind: 1}, "reqobj"
 			case 2:
 				q.prompt, mut = 1, "promptbad"
 			case 3:
@@ -867,6 +981,55 @@ func genHistory(r drv.Rand, w *emit.Writer) {
 			default:
 				q.uri, mut = "", "nouri"
 			}
+		}
+		if q.ro.kind == 0 && r.Chance(1, 4) { // a really signed request object, parameters inside equal to / different from the outer ones
+			o := robj{kind: 2, iss: q.client, client: q.client, audOK: true, signer: "client:" + q.client, rt: q.rt, prompt: -1}
+			switch r.IntN(6) {
+			case 0:
+				o.uri = q.uri
+			case 1:
+				o.uri = drv.Pick(r, c.Redirects)
+			case 2, 3:
+				o.uri, _ = mutate(r, drv.Pick(r, c.Redirects))
+			case 4:
+				o.uri = "https://evil.example/cb"
+			}
+			if r.Chance(2, 3) { // the plain parameter is fine: only the one inside decides
+				q.uri = drv.Pick(r, c.Redirects)
+			} else if r.Chance(1, 3) {
+				q.uri = ""
+			}
+			if r.Chance(1, 4) {
+				switch r.IntN(8) {
+				case 0:
+					o.iss = drv.Pick(r, []string{"c1", "nobody", ""})
+				case 1:
+					o.client = drv.Pick(r, []string{"c1", "", "nobody"})
+				case 2:
+					o.audOK = false
+				case 3:
+					o.signer = "attacker"
+				case 4:
+					o.signer = "wrongkid"
+				case 5:
+					o.signer = "client:" + drv.Pick(r, []string{"c0", "c1"})
+				case 6:
+					o.rt = drv.Pick(r, []string{"", "id_token", "code"})
+				default:
+					o.iss, o.client = "", ""
+				}
+			}
+			if r.Chance(1, 4) {
+				o.mode = drv.Pick(r, []string{"query", "fragment", "form_post"})
+			}
+			if r.Chance(1, 5) {
+				o.prompt = r.IntN(3)
+			}
+			if r.Bool() {
+				o.scope = "openid email"
+			}
+			q.ro = o
+			mut += "+signedro"
 		}
 		if dyn { // several hosts of one provider instance; hints signed for one host presented at another
 			q.host = drv.Pick(r, []string{"a.example.com", "b.example.com"})
@@ -964,6 +1127,25 @@ func directed(r drv.Rand, w *emit.Writer) {
 	}
 }
 
+// directedRO: signed request objects whose redirect_uri equals / differs from the registered
+// plain parameter, followed through login and callback so the FINAL target is judged.
+func directedRO(w *emit.Writer) {
+	web := withKey(&refstore.Client{ID: "c0", App: op.ApplicationTypeWeb, RespTypes: allRT,
+		Redirects: []string{"https://app.example.com/cb", "https://app.example.com/cb2"}, ATType: op.AccessTokenTypeBearer})
+	for _, router := range []opfix.Router{opfix.Provider, opfix.Legacy} {
+		for _, inner := range []string{"https://evil.example/cb", "https://app.example.com/cb2", "https://app.example.com/cb", ""} {
+			for _, rt := range []string{"code", "id_token token"} {
+				for _, signer := range []string{"client:c0", "attacker"} {
+					o := robj{kind: 2, iss: "c0", client: "c0", audOK: true, signer: signer, rt: rt, uri: inner, prompt: -1, scope: "openid"}
+					ops := []hop{{kind: 0, router: router, q: areq{client: "c0", uri: "https://app.example.com/cb", rt: rt, ro: o}},
+						{kind: 1, k: 0}, {kind: 2, router: router, k: 0}}
+					runHistory(w, true, []*refstore.Client{web}, ops, []string{"kind=history", "directed=requestobject", "router=" + router.String()})
+				}
+			}
+		}
+	}
+}
+
 func main() {
 	cfg := drv.Parse()
 	r := drv.NewRand(cfg.Seed)
@@ -973,6 +1155,7 @@ func main() {
 	}
 	w := emit.NewWriter(cfg.Out, "C03_spec", shard, cfg.Only)
 	directed(r, w)
+	directedRO(w)
 	nv := cfg.Count(900, 14000)
 	nh := cfg.Count(700, 10000)
 	for i := 0; i < nv; i++ {
@@ -984,7 +1167,7 @@ func main() {
 		genHistory(r, w)
 	}
 	err := w.Close(emit.Meta{Property: "C03", Tier: cfg.Tier, Seed: cfg.Seed,
-		Rule: "validate: random registration (app type x dev x response types x 1-3 registered URIs x optional globs incl. malformed) x requested URI = registered one, mutated (suffix/prefix/userinfo/host case/port/loopback swaps/scheme/custom/glob metacharacters/foreign/empty/unparseable) or glob instance, x response_type; history: 1-2 flows Authorize->Login->Callback over HTTP on random routers with 0-1 error-provoking parameter (before or after URI validation), storage faults, skipped login, replayed/unknown callbacks, all response modes; plus directed F14 and happy-flow cases. non-trivial = model path class != 0 (validate: non-empty URI; history: at least one answer that is not an error page); distinct = distinct Coq input terms",
+		Rule: "validate: random registration (app type x dev x response types x 1-3 registered URIs x optional globs incl. malformed) x requested URI = registered one, mutated (suffix/prefix/userinfo/host case/port/loopback swaps/scheme/custom/glob metacharacters/foreign/empty/unparseable) or glob instance, x response_type; history: 1-2 flows Authorize->Login->Callback over HTTP on random routers with 0-1 error-provoking parameter (before or after URI validation), really signed request objects (client key registered in the storage; redirect_uri / response_type / response_mode / prompt / scope inside equal to or different from the plain parameters; wrong key, kid, iss, aud, client_id), storage faults returning plain / typed / redirect-disabled errors, dynamic issuer with several hosts, skipped login, replayed/unknown callbacks, all response modes; plus directed F14 and happy-flow cases. non-trivial = model path class != 0 (validate: non-empty URI; history: at least one answer that is not an error page); distinct = distinct Coq input terms",
 	})
 	if err != nil {
 		fmt.Fprintln(os.Stderr, err)
